@@ -32,6 +32,12 @@ def x_obligations(tier):
         env = {"VF_PRE": pre, "VF_N": str(n), "VF_SUF": suf, "VF_ELIDE": "0"}
         o.append(Obl(_name("C07-exc", pre, n, suf), M, "exc", env=env, timeout=T, path_timeout=200, family="C07-exc",
                      bound=f"search = {pre!r} + t + {suf!r}, EVERY str t with len(t) <= {n}; log calls not elided"))
+    ship = [("hamlet/", 1, "/**"), ("hamlet/s/sq010/sh0010/anim/v001/w/ma", 1, "")]
+    if tier == "thorough":
+        ship += [("hamlet/s/**/movie?version=", 1, ""), ("hamlet/a/char/", 1, "/**/maya"), ("hamlet/s,", 1, "/*"), ("hamlet/*/**?ext=", 1, ""), ("hamlet/a/char/x/model/v001/", 1, "/cache")]
+    for pre, n, suf in ship:
+        o.append(Obl(_name("C07-ref[shipped]", pre, n, suf), M, "ref", env={"VF_CONF": "shipped", "VF_PRE": pre, "VF_N": str(n), "VF_SUF": suf}, timeout=T, path_timeout=300, family="C07-shipped",
+                     bound=f"shipped configuration: search = {pre!r} + c + {suf!r}, c one symbolic character"))
     o.append(Obl("C07-kernel-or_on_path", M, "kernel_or_path", env={"VF_N": "1" if tier == "quick" else "2"}, timeout=T, family="C07-kernel", bound="3 segments of symbolic text"))
     o.append(Obl("C07-kernel-handle_extension", M, "kernel_ext", env={"VF_N": "4" if tier == "quick" else "5"}, timeout=T, family="C07-kernel"))
     o.append(Obl("C07-history[caches on]", M, "history", env={"VF_CACHES": "1"}, timeout=T, family="C07-history",
